@@ -43,6 +43,14 @@ pub fn lattice_spaces<O: Oracle + Clone + 'static>(tier: Tier, oracle: O, label:
         }
         v.push(Box::new(Single { p: PreparedSkeleton::new(sk, &header_sites), oracle: oracle.clone(), label }));
     }
+    // the tiny-full objects as ET_REL / ET_EXEC / ET_CORE: k <= 1 on every header-table field
+    for (i, sk) in filetype_variants().into_iter().enumerate() {
+        // quick: ELF32-MSB and ELF64-LSB
+        if tier == Tier::Quick && !(i / 3 == 1 || i / 3 == 2) {
+            continue;
+        }
+        v.push(Box::new(Single { p: PreparedSkeleton::new(sk, &header_sites), oracle: oracle.clone(), label }));
+    }
     // samples: k <= 1 on the file header (quick) / all header and table fields (thorough)
     for sk in sample_skeletons() {
         let p = if tier == Tier::Quick { PreparedSkeleton::new(sk, &ehdr_sites) } else { PreparedSkeleton::new(sk, &header_sites) };
@@ -70,7 +78,7 @@ pub fn lattice_spaces<O: Oracle + Clone + 'static>(tier: Tier, oracle: O, label:
         }
     }
     let text = match tier {
-        Tier::Quick => "k<=1: every site (header, table and deep body sites) of 8 tiny-full + 12 small + 4 extended-numbering skeletons, the header / special-section / non-PT_LOAD segment sites of 4 wide objects (110 sections with every special kind twice, 204 segments; with and without section headers), every header-table field of the 2 64-bit linker-order tiny-full objects under 8 e_machine values with processor-specific ABI deviations and of 6 objects carrying the 8-byte-word .hash of 64-bit Alpha / s390x (thorough: 4 encodings x 14 machines), ehdr sites of the 10 samples; k=2: ehdr x (ehdr | shdr[0]) pairs of the small and extended-numbering shapes",
+        Tier::Quick => "k<=1: every site (header, table and deep body sites) of 8 tiny-full + 12 small + 4 extended-numbering skeletons, the header / special-section / non-PT_LOAD segment sites of 4 wide objects (110 sections with every special kind twice, 204 segments; with and without section headers), every header-table field of the 2 64-bit linker-order tiny-full objects under 8 e_machine values with processor-specific ABI deviations and of 6 objects carrying the 8-byte-word .hash of 64-bit Alpha / s390x (thorough: 4 encodings x 14 machines), every header-table field of 2 tiny-full objects as ET_REL / ET_EXEC / ET_CORE, ehdr sites of the 10 samples; k=2: ehdr x (ehdr | shdr[0]) pairs of the small and extended-numbering shapes",
         Tier::Thorough => "k<=1: as quick plus all 8 wide objects and every shdr/phdr field of the 10 samples; k=2: all header-field pairs of the small and extended-numbering shapes, and all coupled pairs (same header; ehdr x any header; body word x own header) of all 8 tiny-full skeletons; k=3: all triples of the 10 table-locating fields (e_phoff, e_shoff, e_*entsize, e_*num, e_shstrndx, shdr[0].sh_size/sh_link/sh_info) of the extended-numbering and shdrs-only shapes",
     };
     (v, LatticeBounds { text: text.to_string() })
